@@ -10,12 +10,20 @@ open UVerif.EDec
 def sN (x : ER) : Int := EDec.toInt (signedNum x)
 
 theorem ecanon_signedNum {x : ER} (h : ECanon x.num) : ECanon (signedNum x) := by
-  unfold signedNum; split <;> exact h
+  unfold signedNum; split
+  · exact ecanon_neg h
+  · exact h
+
+/-- the signed numerator is never a negative zero (negating a zero edecimal leaves it unsigned) -/
+theorem nz_signedNum {x : ER} (hn : x.num.neg = false) : NZ (signedNum x) := by
+  unfold signedNum; split
+  · exact neg_nz (nz_of_nonneg hn)
+  · exact nz_of_nonneg hn
 
 theorem sN_eq {x : ER} (hn : x.num.neg = false) : sN x = if x.neg then -(EDec.toNat x.num.d : Int) else EDec.toNat x.num.d := by
   unfold sN signedNum
   split
-  · simp [EDec.toInt, EDec.neg, hn]
+  · rw [neg_spec]; simp [EDec.toInt, hn]
   · simp [EDec.toInt, hn]
 
 theorem toRat_signed {x : ER} (hx : ERCanon x) : toRat x = (sN x : Rat) / (EDec.toNat x.den.d : Rat) := by
@@ -34,17 +42,18 @@ theorem posCanon_mul {a b : ED} (ha : PosCanon a) (hb : PosCanon b) :
   rw [toInt_nonneg_of hn, toInt_nonneg_of ha.2, toInt_nonneg_of hb.2] at e
   exact_mod_cast e
 
-/-- the object built from a signed numerator `e` and a positive denominator `f` -/
-theorem pre_spec (e f : ED) (he : ECanon e) (hf : PosCanon f) (hf0 : 0 < EDec.toNat f.d) :
+/-- the object built from a signed numerator `e` (not a negative zero) and a positive denominator `f` -/
+theorem pre_spec (e f : ED) (he : ECanon e) (hnz : NZ e) (hf : PosCanon f) (hf0 : 0 < EDec.toNat f.d) :
     ERCanon { neg := e.neg, num := if e.neg then EDec.neg e else e, den := f } ∧
     toRat { neg := e.neg, num := if e.neg then EDec.neg e else e, den := f } = (EDec.toInt e : Rat) / (EDec.toNat f.d : Rat) ∧
     EDec.toNat ({ neg := e.neg, num := if e.neg then EDec.neg e else e, den := f } : ER).num.d = EDec.toNat e.d := by
   cases hen : e.neg with
   | true =>
-    have hnum : PosCanon (EDec.neg e) := ⟨he, by simp [EDec.neg, hen]⟩
-    refine ⟨⟨by simpa using hnum, hf, hf0⟩, ?_, by simp [EDec.neg]⟩
-    rw [toRat_eq (by simp [EDec.neg, hen]) hf.2]
-    simp [EDec.toInt, hen, EDec.neg, neg_div]
+    have hflag := neg_flag hnz hen
+    have hnum : PosCanon (EDec.neg e) := ⟨ecanon_neg he, hflag⟩
+    refine ⟨⟨by simpa using hnum, hf, hf0⟩, ?_, by simp [neg_d]⟩
+    rw [toRat_eq (by simpa using hflag) hf.2]
+    simp [EDec.toInt, hen, neg_d, neg_div]
   | false =>
     have hnum : PosCanon e := ⟨he, hen⟩
     refine ⟨⟨by simpa using hnum, hf, hf0⟩, ?_, by simp⟩
@@ -68,7 +77,7 @@ def preOf (e f : ED) : ER := { neg := e.neg, num := if e.neg then EDec.neg e els
 /-- structure of `+=` / `-=`: `normalize()` applied to the signed cross-multiplied numerator `e` over `f`. -/
 theorem addsub_shape (isSub : Bool) {x r : ER} (hx : ERCanon x) (hr : ERCanon r) :
     ∃ e f : ED, addsub isSub x r = normalize (preOf e f) ∧ ECanon e ∧ PosCanon f ∧ 0 < EDec.toNat f.d ∧
-      (EDec.toInt e : Rat) / (EDec.toNat f.d : Rat) = (if isSub then toRat x - toRat r else toRat x + toRat r) := by
+      (EDec.toInt e : Rat) / (EDec.toNat f.d : Rat) = (if isSub then toRat x - toRat r else toRat x + toRat r) ∧ NZ e := by
   have hDx : (EDec.toNat x.den.d : Rat) ≠ 0 := by exact_mod_cast (Nat.pos_iff_ne_zero.mp hx.2.2)
   have hDr : (EDec.toNat r.den.d : Rat) ≠ 0 := by exact_mod_cast (Nat.pos_iff_ne_zero.mp hr.2.2)
   have ha := ecanon_signedNum hx.1.1
@@ -85,12 +94,12 @@ theorem addsub_shape (isSub : Bool) {x r : ER} (hx : ERCanon x) (hr : ERCanon r)
     cases isSub with
     | true =>
       have hn := sub_spec ha hc
-      refine ⟨EDec.sub (signedNum x) (signedNum r), x.den, rfl, hn.2, hx.2.1, hx.2.2, ?_⟩
+      refine ⟨EDec.sub (signedNum x) (signedNum r), x.den, rfl, hn.2, hx.2.1, hx.2.2, ?_, sub_nz ha hc (nz_signedNum hx.1.2)⟩
       rw [hn.1, toRat_signed hx, toRat_signed hr, ← hdd]
       simp only [sN, if_true]; push_cast; field_simp
     | false =>
       have hn := add_spec ha hc
-      refine ⟨EDec.add (signedNum x) (signedNum r), x.den, rfl, hn.2, hx.2.1, hx.2.2, ?_⟩
+      refine ⟨EDec.add (signedNum x) (signedNum r), x.den, rfl, hn.2, hx.2.1, hx.2.2, ?_, add_nz ha hc (nz_signedNum hx.1.2)⟩
       rw [hn.1, toRat_signed hx, toRat_signed hr, ← hdd]
       simp only [sN, Bool.false_eq_true, if_false]; push_cast; field_simp
   · simp only [heq, Bool.false_eq_true, if_false]
@@ -102,22 +111,22 @@ theorem addsub_shape (isSub : Bool) {x r : ER} (hx : ERCanon x) (hr : ERCanon r)
     | true =>
       have he := sub_spec hm1.2 hm2.2
       simp only [if_true]
-      refine ⟨_, _, rfl, he.2, hf, hf0, ?_⟩
+      refine ⟨_, _, rfl, he.2, hf, hf0, ?_, sub_nz hm1.2 hm2.2 (mul_nz ha hr.2.1.1)⟩
       rw [he.1, hm1.1, hm2.1, hfv, toRat_signed hx, toRat_signed hr,
         toInt_nonneg_of hx.2.1.2, toInt_nonneg_of hr.2.1.2]
       simp only [sN]; push_cast; field_simp
     | false =>
       have he := add_spec hm1.2 hm2.2
       simp only [Bool.false_eq_true, if_false]
-      refine ⟨_, _, rfl, he.2, hf, hf0, ?_⟩
+      refine ⟨_, _, rfl, he.2, hf, hf0, ?_, add_nz hm1.2 hm2.2 (mul_nz ha hr.2.1.1)⟩
       rw [he.1, hm1.1, hm2.1, hfv, toRat_signed hx, toRat_signed hr,
         toInt_nonneg_of hx.2.1.2, toInt_nonneg_of hr.2.1.2]
       simp only [sN]; push_cast; field_simp
 
 theorem addsub_spec (isSub : Bool) {x r : ER} (hx : ERCanon x) (hr : ERCanon r) :
     Good (addsub isSub x r) (if isSub then toRat x - toRat r else toRat x + toRat r) := by
-  obtain ⟨e, f, h1, h2, h3, h4, h5⟩ := addsub_shape isSub hx hr
-  obtain ⟨p1, p2, _⟩ := pre_spec e f h2 h3 h4
+  obtain ⟨e, f, h1, h2, h3, h4, h5, h6⟩ := addsub_shape isSub hx hr
+  obtain ⟨p1, p2, _⟩ := pre_spec e f h2 h6 h3 h4
   rw [h1]
   exact good_of_pre p1 (by rw [← h5]; exact p2)
 
